@@ -206,4 +206,6 @@ def run_case(case, ctx):
 
 
 def run(spec, ctx):
+    if spec.get("m9"):
+        return common.run_m9(spec, ctx)
     common.loop(spec, ctx, gen_case, run_case)
